@@ -843,14 +843,20 @@ Lemma ghost_step_trans' ev s1 s2 s3 :
   ghost_step ev s1 s2 -> ghost_same s2 s3 -> ghost_step ev s1 s3.
 Proof. intros [C D] [A B]. unfold ghost_step. rewrite A, B. auto. Qed.
 
+Ltac brk_all :=
+  repeat (match goal with
+          | H : context [match ?x with _ => _ end] |- _ => destruct x eqn:?
+          end).
+
 Lemma ghost_handle_writables c ev s s' b : handle_writables c ev s = (s', b) -> ghost_same s s'.
 Proof.
-  unfold handle_writables, base_handle_writables. intros E. hsimpl. brk_in E; inv_pair; now split.
+  unfold handle_writables, base_handle_writables. intros E. hsimpl.
+  brk_all; repeat inv_pair; now split.
 Qed.
 
 Lemma ghost_write_phase c ev s s' b : write_phase c ev s = (s', b) -> ghost_same s s'.
 Proof.
-  unfold write_phase, write_to_descriptors. intros E. brk_in E; inv_pair; now split.
+  unfold write_phase, write_to_descriptors. intros E. brk_all; repeat inv_pair; unfold ghost_same; hsimpl; now split.
 Qed.
 
 Lemma ghost_parse_first_request c ev s s' r : parse_first_request c ev s = (s', r) -> ghost_same s s'.
@@ -872,9 +878,9 @@ Proof.
   destruct (negb (req_complete s)).
   - destruct (parse_first_request c ev (note_client_io (now ev) (set_last_activity (now ev) s))) as [s1 o] eqn:Ep.
     destruct (ghost_parse_first_request _ _ _ _ _ Ep) as [A B]. hsimpl.
-    intros E. brk_in E; inv_pair; hsimpl; split; auto.
+    intros E. brk_all; repeat inv_pair; hsimpl; split; auto.
   - unfold on_client_data. hsimpl. intros E.
-    brk_in E; inv_pair; rewrite ?client_queue_all_spec; hsimpl; split; auto.
+    brk_all; repeat inv_pair; rewrite ?client_queue_all_spec; hsimpl; cbn [recv_data]; split; auto.
 Qed.
 
 Lemma ghost_read_from_descriptors c ev s s' r :
@@ -900,7 +906,7 @@ Proof.
   destruct (plugin sx); try (intros E; inv_pair; exact Gx);
     destruct (read_from_descriptors c ev sx) as [sy o2] eqn:Er;
     destruct (ghost_read_from_descriptors _ _ _ _ _ Er) as [C D];
-    destruct o2; intros E; inv_pair; unfold ghost_step; hsimpl; rewrite C, A; split; auto.
+    destruct o2; intros E; inv_pair; unfold ghost_step; hsimpl; rewrite A in D; rewrite C; (split; [exact D|exact B]).
 Qed.
 
 Theorem ghost_handle_events c ev s s' r : handle_events c ev s = (s', r) -> ghost_step ev s s'.
